@@ -144,6 +144,44 @@ pub fn run(ctx: &mut Ctx) {
         }
     }
 
+    // ---- process history: what the server expects is determined by (verifier, salt, username, A, B) - not by what
+    //      else this process did before.  Between logins the process acts as a CLIENT towards other servers that
+    //      announce other groups (other primes, generators 2 / 5 / 7 / ..); then a server step is checked against
+    //      the textbook values.  Sequential on purpose: process-wide state is what this looks for
+    {
+        let mut rng = ctx.rng("process_history");
+        let n = if ctx.quick() { 80 } else { 2500 };
+        for k in 0..n {
+            let (ul, pl) = (rng.range(1, 16) as usize, rng.range(1, 16) as usize);
+            let (u, p) = (rand_cred(&mut rng, ul), rand_cred(&mut rng, pl));
+            let (salt, b, a, chal): ([u8; 32], Vec<u8>, Vec<u8>, Vec<u8>) = (rng.arr(), rng.bytes(32), rng.bytes(32), rng.bytes(16));
+            let sp = spec_session(ns(&u).as_ref().as_bytes(), ns(&p).as_ref().as_bytes(), &salt, &b, &a, GENERATOR, &NLE);
+            let mut before: Vec<String> = Vec::new();
+            for _ in 0..rng.below(4) {
+                let g = *rng.pick(&[2u8, 7, 7, 7, 5, 255, 3]);
+                let mut n2: [u8; 32] = if rng.chance(1, 4) { NLE } else { rng.arr() };
+                n2[0] |= 1; if n2[31] == 0 { n2[31] = 0x80; }
+                let mut bp: [u8; 32] = rng.arr(); bp[31] = 0;            // below any modulus with a non-zero top byte
+                let (ou, op) = (rand_cred(&mut rng, 3), rand_cred(&mut rng, 3));
+                let osalt: [u8; 32] = rng.arr(); let oa = rng.bytes(32);
+                let _ = client_api(&ou, &op, g, n2, bp, osalt, &oa, &[]);
+                before.push(format!("{{\"client_challenge_under\":{{\"g\":{},\"N\":\"{}\"}}}}", g, hex(&n2)));
+            }
+            let wrong = arr20(&flip(&sp.m1, (k * 7) % 160));
+            let out = server_api(&u, sp.v, salt, &b, sp.a_pub, &[sp.m1, wrong], &chal);
+            ctx.oracle_runs += 2;
+            let det = |what: &str| format!("{{\"what\":\"{}\",\"user\":{},\"password\":{},\"salt\":\"{}\",\"b\":\"{}\",\"a\":\"{}\",\"activity_before\":[{}]}}", what, jstr(&u), jstr(&p), hex(&salt), hex(&b), hex(&a), before.join(","));
+            if out.len() != 3 { ctx.count("process_history:degenerate keys skipped"); continue; }
+            let enc = &out[2];
+            if out[1] != sp.b_pub.to_vec() { ctx.fail("process_history", det("the server's public key is not 3v + g^b mod N")); continue; }
+            if enc[0] != 0 { ctx.fail("process_history", det("the server refused the proof that verifier, salt, username, A and B determine")); continue; }
+            if enc[1..21] != sp.m2[..] || enc[21..61] != sp.k[..] { ctx.fail("process_history", det("accepted, but the server's proof or session key is not the determined one")); continue; }
+            let rest = &enc[77..];
+            if rest[0] != 1 { ctx.fail("process_history", det("the server accepted a proof with one bit flipped")); }
+            else if rest[1..21] != wrong[..] || rest[21..41] != sp.m1[..] { ctx.fail("process_history", det("the error does not carry (presented proof, determined proof)")); }
+            ctx.count(&format!("process_history:client_challenges_before={}", before.len()));
+        }
+    }
     // ---- implementation-only oracle ----
     let per_thread = if ctx.quick() { 12 } else { 800 };
     let seed = ctx.seed;
